@@ -16,6 +16,7 @@ package main
 import (
 	"fmt"
 	"math/rand"
+	"runtime"
 	"strconv"
 	"strings"
 	"time"
@@ -95,6 +96,9 @@ func (s spec) replay(ops []op) string {
 }
 
 func opHasArg(kind, code string) bool {
+	if isHeld(code) {
+		code = code[1:]
+	}
 	switch kind {
 	case "q", "async", "mux":
 		return code == "a" || code == "w" || code == "p"
@@ -166,13 +170,13 @@ func validCode(kind, code string) bool {
 	var set string
 	switch kind {
 	case "q":
-		set = "a w p o y c"
+		set = "a w p o y c ho hy hw"
 	case "async", "mux":
-		set = "a w p o y c i"
+		set = "a w p o y c i ho hy hw"
 	case "mq":
-		set = "ac wc pc ar wr pr o y c tc tl ic il"
+		set = "ac wc pc ar wr pr o y c tc tl ic il ho hy hwc hwr"
 	case "sync":
-		set = "u o t l c"
+		set = "u o t l c ho"
 	case "pri":
 		set = "u o l"
 	}
@@ -182,6 +186,48 @@ func validCode(kind, code string) bool {
 		}
 	}
 	return false
+}
+
+// held calls: "h" + the code of a call that blocks when it is issued; the NEXT op of the history releases it
+func isHeld(code string) bool {
+	switch code {
+	case "ho", "hy", "hw", "hwc", "hwr":
+		return true
+	}
+	return false
+}
+
+// runHeld starts `held` in a goroutine, issues `rel`, then joins `held` (under the watchdog).
+func runHeld(qu queue, held, rel op) (rRel, rHeld obs, hung bool) {
+	started := make(chan struct{})
+	res := make(chan obs, 1)
+	go func() {
+		defer func() {
+			if p := recover(); p != nil {
+				res <- obs{"other", otherPanic}
+			}
+		}()
+		close(started)
+		r, _ := qu.applyRaw(held)
+		res <- r
+	}()
+	<-started
+	for i := 0; i < 40; i++ { // give it a chance to really block first (either order is a legal schedule with the same results)
+		runtime.Gosched()
+	}
+	rRel, hung = qu.apply(rel)
+	if hung {
+		return rRel, obs{"other", otherHang}, true
+	}
+	t := time.NewTimer(hangTimeout)
+	defer t.Stop()
+	select {
+	case rHeld = <-res:
+	case <-t.C:
+		return rRel, obs{"other", otherHang}, true
+	}
+	qu.noteHeld(held, rHeld)
+	return rRel, rHeld, false
 }
 
 // ---- running one history ----
@@ -194,17 +240,43 @@ func runCase(e *vh.Env, sp spec, ops []op, gen string) {
 	human := make([]string, 0, len(ops))
 	done := ops[:0:0]
 	handed, refused := 0, 0
-	for _, o := range ops {
-		r, hung := qu.apply(o)
-		done = append(done, o)
+	record := func(o op, r obs, note string) {
 		steps = append(steps, "("+qu.coqOp(o)+", "+r.coq()+")")
-		human = append(human, qu.goOp(o)+" = "+r.String())
+		human = append(human, qu.goOp(o)+" = "+r.String()+note)
 		switch r.tag {
 		case "item":
 			handed++
 		case "full", "cfull", "closed":
 			refused++
 		}
+	}
+	for i := 0; i < len(ops); i++ {
+		o := ops[i]
+		if isHeld(o.code) {
+			plain := o
+			plain.code = o.code[1:]
+			if i+1 < len(ops) && !isHeld(ops[i+1].code) && qu.canHold(plain, ops[i+1]) {
+				rel := ops[i+1]
+				i++
+				rRel, rHeld, hung := runHeld(qu, plain, rel)
+				done = append(done, o, rel)
+				record(rel, rRel, "")
+				record(plain, rHeld, "   [this call was started BEFORE the previous line's call, while it had to block, and returned after it]")
+				if hung {
+					hangs[sp.kind]++
+					qu.release()
+					break
+				}
+				if rRel.tag == "other" || rHeld.tag == "other" {
+					break
+				}
+				continue
+			}
+			o = plain // it would not block (or the next call would not release it): an ordinary call
+		}
+		r, hung := qu.apply(o)
+		done = append(done, o)
+		record(o, r, "")
 		if hung {
 			hangs[sp.kind]++
 			qu.release()
@@ -342,6 +414,7 @@ func genRandom(r *rand.Rand, kind string, maxLen int) []op {
 			specials = []int64{-2, -3, -4, -5}
 		}
 	}
+	holds := r.Intn(3) == 0
 	id := int64(0)
 	ops := make([]op, 0, n)
 	for i := 0; i < n; i++ {
@@ -366,8 +439,139 @@ func genRandom(r *rand.Rand, kind string, maxLen int) []op {
 			}
 		}
 		ops = append(ops, o)
+		// held calls: the pop / add-anyway is started although it has to block, the next call releases it
+		if holds && i+1 < n && r.Intn(3) == 0 {
+			var rels []string
+			hcode := ""
+			switch code {
+			case "o", "y":
+				if kind != "sync" || code == "o" {
+					hcode = "h" + code
+					switch kind {
+					case "mq":
+						rels = []string{"ac", "ar", "pc", "pr", "c"}
+					case "sync":
+						rels = []string{"u", "u", "c"}
+					default:
+						rels = []string{"a", "a", "p", "c"}
+					}
+				}
+			case "w", "wc", "wr":
+				hcode = "h" + code
+				rels = []string{"y", "o", "y", "c"}
+			}
+			if hcode != "" && kind != "pri" {
+				ops[len(ops)-1].code = hcode
+				rel := op{code: rels[r.Intn(len(rels))]}
+				if opHasArg(kind, rel.code) {
+					id++
+					rel.x = id
+				}
+				ops = append(ops, rel)
+				i++
+			}
+		}
 	}
 	return ops
+}
+
+// held-call streams, built so that the held calls really have to block: fill a bounded level to its capacity, hold an
+// add-anyway and release it (pop / Close); drain to empty, hold a Pop / PopAnyway and release it (add / prior add / Close)
+func genHold(r *rand.Rand, kind string) (spec, []op) {
+	id := int64(0)
+	next := func(code string) op { id++; return op{code: code, x: id} }
+	var ops []op
+	blocks := 2 + r.Intn(4)
+	if kind == "sync" {
+		for b := 0; b < blocks; b++ {
+			for i := r.Intn(3); i > 0; i-- {
+				ops = append(ops, next("u"))
+			}
+			for i := 0; i < 3; i++ {
+				ops = append(ops, op{code: "t"})
+			}
+			ops = append(ops, op{code: "ho"})
+			if r.Intn(4) == 0 {
+				ops = append(ops, op{code: "c"}, op{code: "t"}, op{code: "ho"}, next("u"))
+				break
+			}
+			ops = append(ops, next("u"))
+		}
+		return spec{kind: "sync"}, ops
+	}
+	c := 1 + r.Intn(3)
+	if kind == "mq" {
+		rc := 1 + r.Intn(3)
+		sp := spec{kind: "mq", caps: []int{c, rc}}
+		closed := false
+		for b := 0; b < blocks && !closed; b++ {
+			lvl := r.Intn(2) // the level whose add-anyway is held; the control list must be empty for a pop to make room in the request list
+			n, add, hw := c, "ac", "hwc"
+			if lvl == 1 {
+				n, add, hw = rc, "ar", "hwr"
+			}
+			for i := 0; i < n; i++ {
+				ops = append(ops, next(add))
+			}
+			ops = append(ops, next(hw))
+			switch r.Intn(5) {
+			case 0:
+				ops = append(ops, op{code: "c"})
+				closed = true
+			case 1:
+				ops = append(ops, op{code: "o"})
+			default:
+				ops = append(ops, op{code: "y"})
+			}
+			for i := 0; i < n+1; i++ { // drain
+				ops = append(ops, op{code: "y"})
+			}
+			if closed {
+				break
+			}
+			ops = append(ops, op{code: []string{"ho", "hy"}[r.Intn(2)]})
+			switch r.Intn(6) {
+			case 0:
+				ops = append(ops, op{code: "c"}, op{code: "hy"}, next("ac"))
+				closed = true
+			default:
+				ops = append(ops, next([]string{"ac", "ar", "pc", "pr"}[r.Intn(4)]))
+			}
+		}
+		return sp, ops
+	}
+	sp := spec{kind: kind, caps: []int{c}}
+	closed := false
+	for b := 0; b < blocks && !closed; b++ {
+		for i := 0; i < c; i++ {
+			ops = append(ops, next([]string{"a", "a", "p"}[r.Intn(3)]))
+		}
+		ops = append(ops, next("hw"))
+		switch r.Intn(5) {
+		case 0:
+			ops = append(ops, op{code: "c"})
+			closed = true
+		case 1:
+			ops = append(ops, op{code: "o"})
+		default:
+			ops = append(ops, op{code: "y"})
+		}
+		for i := 0; i < c+1; i++ {
+			ops = append(ops, op{code: "y"})
+		}
+		if closed {
+			break
+		}
+		ops = append(ops, op{code: []string{"ho", "hy"}[r.Intn(2)]})
+		switch r.Intn(6) {
+		case 0:
+			ops = append(ops, op{code: "c"}, op{code: "hy"}, next("a"))
+			closed = true
+		default:
+			ops = append(ops, next([]string{"a", "p"}[r.Intn(2)]))
+		}
+	}
+	return sp, ops
 }
 
 // a stream of pushes with many ties and monotone runs, then a full drain
@@ -498,6 +702,8 @@ func corpus() []string {
 		"mq;1,0;ar1 ac2 ac3 pc4 tc tl o c o tl y y y tc il tl il ic", "mq;2,1;tl tc tl ac1 ar2 il ic", "mq;1,1;wc1 wc2 wr3 wr4 y y c wc5 wr6",
 		"mq;0,2;pr1 pr2 ar3 ar4 pr5 y y y y y", "mq;-1,-1;ac1 ac2 ar3 ar4 o o o o",
 		"mq;1,1;ac-1 ac2 ar-1 pr-2 o o o c pc-1 y", "mq;0,0;ar-1 ac-1 ar-3 ac-4 y y y y", "sync;;u-2 u-3 u-4 u-5 l o t o t c t",
+		"mq;1,1;ac1 hwc2 y ar3 hwr4 o hwr5 c y", "mq;1,1;ac1 ar2 hwr3 y y hy pc4 ho ar5 hy c", "mq;0,0;ho ac1 hy ar2 ho pr3 ho c ic il tl il",
+		"mux;1;a1 c i y i", "sync;;ho u1 ho c ho", "sync;;u1 o ho u2 t ho c t",
 		"sync;;c u1 l t o", "sync;;u1 c t t", "sync;;u1 u2 l c u3 l o t t o", "sync;;t l u1 t t",
 		"pri;2;u0:1 u0:2 o", "pri;0;u0:1 o l", "pri;-1;u0:1 o", "pri;8;u7:1 u7:2 u7:3 u7:4 o u7:5 o o o",
 		"pri;3;u1:1 u5:2 u5:3 u9:4 l o o o o", "pri;5;u0:1 u1:2 u0:3 u1:4 u2:5 u9:6 o o o o o o",
@@ -615,6 +821,20 @@ func main() {
 			rnd[kindName[k]] = n
 		}
 		e.Meta["random_histories"] = rnd
+
+		// (2b) held-call streams
+		nheld := 0
+		for _, k := range []string{"q", "async", "mux", "mq", "sync"} {
+			if focus != "" && focus != k {
+				continue
+			}
+			for i := e.Scale(150, 1500); i > 0 && hangs[k] < 3; i-- {
+				sp, ops := genHold(e.Rnd, k)
+				runCase(e, sp, ops, "held-calls")
+				nheld++
+			}
+		}
+		e.Meta["held_call_streams"] = nheld
 
 		// (3) PriQueue priority streams: a roomy queue, 6..20 pushes drawn from a small range with many ties and
 		// descending / ascending runs (so that the heap gets inner nodes of every shape), a few pops in between, then pop everything
